@@ -134,6 +134,14 @@ Theorem C15_batch_exact_order_refuted :
 Proof. exact batch_exact_order_refuted. Qed.
 Print Assumptions C15_batch_exact_order_refuted.
 
+(* a session boundary / backup+restore is the identity on the model (by definition: durability is
+   the differential part, every key is read after every boundary) *)
+Theorem C15_reopen_is_identity : forall sort s ord m,
+  model_step sort s OReopen = (s, 0) /\ spec_step ord m OReopen = (m, false) /\
+  model_step sort s OBackupRestore = (s, 0) /\ spec_step ord m OBackupRestore = (m, false).
+Proof. exact boundary_is_identity. Qed.
+Print Assumptions C15_reopen_is_identity.
+
 (* a batch that fails changes nothing *)
 Theorem C15_failed_batch_noop : forall sort s adds dels, sort_ok sort -> store_ok s -> kvs_ok adds ->
   snd (model_step sort s (OBatch adds dels)) <> 0 ->
